@@ -23,7 +23,13 @@ META = {
             "C01_second_patch_not_empty_when_declined); exec_commute; cmd_paths follows the block nesting. %ordered rules: for a level all of whose rows are leaves of "
             "one %ordered rule, sequences of any length, in the computable domain wf_ord_flat (the key determines the row, "
             "order_ok_o) executing the model's command paths on old yields new as a SEQUENCE - equality of forests "
-            "(C01_ordered_flat, C01_ordered_machine); without 'the key determines the row' the order-sensitive reading is "
+            "(C01_ordered_flat, C01_ordered_machine); the same below a chain of block headers of any length (C01_ordered_below_headers, "
+            "by the header step C01_ordered_block_header, which holds for any body); the frame rule on sequences (C01_ordered_frame: on a "
+            "device level of any shape, items of other slots and everything executed inside blocks leave the relative order of the "
+            "%ordered rows unchanged, the %ordered commands act as the list machine); for a level of ANY shape - rows of one %ordered "
+            "rule mixed with rows of default-diff rules of any logic and unknown rows, bodies of any depth - in the computable "
+            "domain wf_ord_level the executed patch leaves the %ordered rows in new's SEQUENCE (C01_ordered_level_seq_partial: the "
+            "sequence clause of the level itself, also when the level sits below a chain of block headers: C01_ordered_level_below_headers_seq_partial; the dict clause and the levels below rows are not proved); without 'the key determines the row' the order-sensitive reading is "
             "false: a re-texted %ordered row is re-created before rows that precede it in new (C01_ordered_retext_refuted, "
             "replayed on the real pipeline, known finding). %rewrite rules: the patch + device half is proved at every depth "
             "(C01_rewrite_patch_builds_partial: for every diff whose levels are governed by one %rewrite rule each with distinct "
@@ -58,8 +64,10 @@ META = {
     "note": "Partial. Proved for the domain wf_C01 (computable guard): block formatter families (not the flattened "
             "Juniper/Nokia/RouterOS command forms), default diff logic, logics default/undo_redo/permanent/ignore_changes, no "
             "%force_commit, unambiguous removal commands, at most one row per (rule,key). Not proved (statements kept in "
-            "Properties/C01.v): %ordered rows with bodies / mixed with other rules / below a block (only the flat one-rule "
-            "level is proved; the ordered reading P_C01o is evaluated on every real output), %rewrite blocks outside wf_rw_block (bodies mixing %rewrite and ordinary rules, re-texted keys: refuted; a header that is added or removed rather than kept; P_C01 is not evaluated on real outputs for %rewrite rules - the model's diff / patch / cmd_paths are compared with the real ones), %multiline, second patch a no-op when a change was declined (checked on "
+            "Properties/C01.v): %ordered rows with bodies / mixed with other rules: the dict clause and the %ordered sequences of the "
+            "levels below (C01_ordered_general_statement; proved: the flat one-rule level also below block headers as equality of "
+            "forests, and the sequence of the %ordered rows of one level of any shape; missing: re-creation of the body of a MOVED "
+            "row; the ordered reading P_C01o is evaluated on every real output), %rewrite blocks outside wf_rw_block (bodies mixing %rewrite and ordinary rules, re-texted keys: refuted; a header that is added or removed rather than kept; P_C01 is not evaluated on real outputs for %rewrite rules - the model's diff / patch / cmd_paths are compared with the real ones), %multiline, second patch a no-op when a change was declined (checked on "
             "every real output). Shipped rulebooks: the convergence conclusion is proved for every shipped (ordering, patching) pair "
             "huawei's included, without any hypothesis (C01_shipped_converges, C01_shipped_converges_all: the literal-word test "
             "lit_quiet is proved sound, C01_lit_quiet_sound; it is still tested on the real regexps as well); the literal form 'no removal after a direct command of its slot' under "
